@@ -9,8 +9,48 @@ from ..poly import Poly
 from . import c10
 
 
+def _last_element_accesses(ctx, tu, I, R):
+    """`T[E - c]` with E the extent of T (the last elements): in range only if E >= c, which a dominating test must establish"""
+    keep = []
+    for n, fq, what, why in I.unknown:
+        sub = subscript(n)
+        f = next((x for x in tu.all_fns() if x.qual == fq), None)
+        handled = False
+        if sub is not None and f is not None:
+            p = cxa.poly(sub[1])
+            consts = [c for m, c in p.t.items() if not m]
+            syms = [(m, c) for m, c in p.t.items() if m]
+            if len(consts) == 1 and consts[0] < 0 and len(syms) == 1 and syms[0][1] == 1 and len(syms[0][0]) == 1 and syms[0][0][0][1] == 1:
+                e_atom = syms[0][0][0][0]
+                b = cxa.lvalue_base(sub[0])
+                try:
+                    te = I.extent.get(I._key(f, b)) if b else None
+                except Exception:
+                    te = None
+                if te is not None and repr(te) in (repr(idxmod.norm_xyz(Poly.sym(idxmod.RAW2EXT.get(e_atom, e_atom)))), e_atom):
+                    c_ = -int(consts[0])
+                    found = []
+
+                    def on_any(node, facts, n=n):
+                        if any(x is n for x in walk(node)):
+                            found.append(frozenset(facts) | frozenset(cxa.local_facts(node, n)))
+                    cxa.canon_facts(f.body, on_atom=on_any, on_cond=on_any)
+                    okk = bool(found) and all(
+                        ("0 < %s" % e_atom, True) in fc or ("%s == 0" % e_atom, False) in fc or ("0 == %s" % e_atom, False) in fc or
+                        ("%d <= %s" % (c_, e_atom), True) in fc or ("%s < %d" % (e_atom, c_), False) in fc or
+                        ("%s <= 0" % e_atom, False) in fc for fc in found)
+                    ctx.check(okk, R, n, fq, what, "last element, under a test that the table is not empty",
+                              "`%s` reads element %s - %d: for an empty table (%s == 0) the index is -%d, and no test of %s > 0 "
+                              "dominates the access" % (what, e_atom, c_, e_atom, c_, e_atom))
+                    handled = True
+        if not handled:
+            keep.append((n, fq, what, why))
+    I.unknown[:] = keep
+
+
 def rule_bounds(ctx, tu, I):
     R = "C11.BOUNDS"
+    _last_element_accesses(ctx, tu, I, R)
     if I.unknown:
         n, fn, what, why = I.unknown[0]
         ctx.error(R, "%d subscripts are not a mixed-radix form over known kinds, first: %s in %s (%s)"
@@ -520,6 +560,10 @@ def run(ctx):
     rule_static(ctx, tu)
     rule_dtor(ctx, tu)
     rule_init(ctx, tu)
+    # shared clause: what BuildMeshNeighbors stores is a valid cell index or -1 (GetNeighborIndex: directions, wrap, range test, encode)
+    from ..core import borrow
+    from . import c15
+    borrow(ctx, "C11", c15.rule_cx, tu)
     from .. import ffi
     ffi.rule_sig(ctx, "C11.FFI")
     ffi.rule_extent(ctx, "C11.FFI-EXTENT", I, ptr_req)
